@@ -298,6 +298,36 @@ Definition pd_step (v : variant) (c : pdcfg) (st : pstate) (k : pdcall) : option
 
 Definition pd_init (c : pdcfg) : pstate := pool_init (pd_pool_cfg c).
 
+(* whole PD history, and the ownership ledger (keyed by index) recomputed from what a caller observes *)
+Fixpoint pd_run_from (v : variant) (c : pdcfg) (st : pstate) (ks : list pdcall)
+  : option (pstate * list (pdcall * pdout)) :=
+  match ks with
+  | [] => Some (st, [])
+  | k :: r =>
+      match pd_step v c st k with
+      | None => None
+      | Some (st1, o) =>
+          match pd_run_from v c st1 r with
+          | None => None
+          | Some (st2, evs) => Some (st2, (k, o) :: evs)
+          end
+      end
+  end.
+Definition pd_run v c ks := pd_run_from v c (pd_init c) ks.
+
+Definition pd_ledger_step (v : variant) (c : pdcfg) (m : lease_map) (e : pdcall * pdout) : lease_map :=
+  match e with
+  | (PAlloc s _, QPfx ip ones bits) =>
+      match prefix_to_index v c (Pfx (Some (V6, ip)) ones bits) with
+      | Some i => lm_insert (key_of_idx i) s m | None => m end
+  | (PReserve p s, QOk) =>
+      match prefix_to_index v c p with Some i => lm_insert (key_of_idx i) s m | None => m end
+  | (PRelease p, _) =>
+      match prefix_to_index v c p with Some i => lm_remove (key_of_idx i) m | None => m end
+  | _ => m
+  end.
+Definition pd_ledger v c (evs : list (pdcall * pdout)) : lease_map := fold_left (pd_ledger_step v c) evs [].
+
 (* ================================================================ registry *)
 (* Names (profiles, pools, VRFs) are numbers; VRF 0 is the empty string (no VRF). *)
 Definition key := (N * N)%type.     (* profileName + "/" + pool.Name *)
